@@ -17,7 +17,7 @@ RULE = ("(1) for every built-in command of the CSV library set a valid base mode
         "wrong-fuzziness results, bad paths, unknown command, duplicate result); (2) the same faults at random positions of random "
         "models with sinks; (3) every producer x consumer pairing of built-in data commands; (4) unfaulted models must be accepted; "
         "distinct by (fault kind, command, parameter, variant) / (producer, consumer)")
-REQUIRED_COUNTERS = ["history_steps_checked", "rejections_checked", "side_effect_free_rejections", "acceptances_checked", "pairings_checked", "exec_events_seen_in_valid_runs", "netcdf_model_cases", "api_built_models", "incremental_rejections_checked", "user_subclass_models", "shared_argument_programs", "valid_models_through_the_tool"]
+REQUIRED_COUNTERS = ["valid_models_through_the_tool_by_bare_name", "history_steps_checked", "rejections_checked", "side_effect_free_rejections", "acceptances_checked", "pairings_checked", "exec_events_seen_in_valid_runs", "netcdf_model_cases", "api_built_models", "incremental_rejections_checked", "user_subclass_models", "shared_argument_programs", "valid_models_through_the_tool"]
 ASSUMPTIONS = ["a list or tuple given to a String/Path parameter is don't-care (string cleaning stringifies by design)",
                "value-dependent run-time errors (InvalidThresholds, DuplicateRawValues, ...) are not acceptance errors",
                "the acceptance rule is restated from the declarations (inputs/required/output/is_fuzzy), not from running clean()"]
@@ -512,6 +512,15 @@ def run_case(ctx, case):
             except TypeError:
                 res = CliRunner().invoke(main, ["eems-csv", fp])
             ctx.count("valid_models_through_the_tool")
+            if res.exit_code == 0 and case.get("rseed", 1) % 16 == 0:
+                # ... and as a user starts it: from the directory of the file, by its bare name
+                from mpv import tool
+                r2 = tool.run_tool(["eems-csv", "model.mpt"], cwd=d2)
+                if r2 is not None:
+                    ctx.count("valid_models_through_the_tool_by_bare_name")
+                    if r2[0] != 0:
+                        ctx.fail("valid-model-rejected-by-the-command-line-tool:started-in-the-directory-of-the-file", {"exit": r2[0], "stderr": r2[2][-300:], "text": text[:400]})
+                        return
             if res.exit_code != 0:
                 try:
                     etxt = res.stderr
